@@ -1027,6 +1027,9 @@ class Translator:
                 if p.kind in ('ref',):
                     out_args.append('&' + a if re.match(r'^[\w.>\-\[\]]+$', a) and not a.startswith('(*') else '&(%s)' % a)
                     self.report.hit('R6.ref_arg')
+                elif p.kind in ('obj_in', 'obj_out') and 'struct ' in p.ctype and re.search(r'\.|->', a) and not a.startswith('&'):
+                    out_args.append('&(%s)' % a)   # a data member of class type passed by reference
+                    self.report.hit('R6.object_member_arg')
                 elif p.kind in ('str_in', 'str_out', 'obj_in', 'obj_out'):
                     out_args.append(a)     # already pointer-valued names (params) or &local handled by string rule
                 else:
